@@ -6,7 +6,7 @@ from vf.core import Part, Violation, call
 from vf.props import common
 
 PROPERTY = "C15"
-RULE = ("Part 'solve': Hypothesis generates validated models (explicit and generated ids, integer leaves, <=14 columns) x 1-3 "
+RULE = ("In 'select' a third of the cases repeat the request on the configured polyhedron after to_b64/from_b64 and compare what the solver is handed. Part 'solve': Hypothesis generates validated models (explicit and generated ids, integer leaves, <=14 columns) x 1-3 "
         "objective dictionaries (distinct non-zero weights per id, zero weights, unknown ids, weights on auxiliary ids) x "
         "include_virtual_variables x solver in {marker (answers 100+column index), exact brute force, None-returning}. "
         "Oracle: the polyhedron handed to the solver equals to_ge_polyhedron(active=True); objective k has at column j exactly "
